@@ -307,22 +307,11 @@ impl MultiState {
                 .as_ref()
                 .map(|d| d.visual_line_count(.., width))
                 .unwrap_or_default();
-            // Track the total number of zombie lines on the screen.
-            self.zombie_lines_count += line_count;
 
             // Track the number of zombie lines that will be drawn by this call to draw.
             adjust += line_count;
 
             reap_indices.push(index);
-        }
-
-        // If this draw is due to a `println`, then we need to erase all the zombie lines.
-        // This is because `println` is supposed to appear above all other elements in the
-        // `MultiProgress`.
-        if extra_lines.is_some() {
-            self.draw_target
-                .adjust_last_line_count(LineAdjust::Clear(self.zombie_lines_count));
-            self.zombie_lines_count = VisualLines::default();
         }
 
         let orphan_visual_line_count = visual_line_count(&self.orphan_lines, width);
@@ -331,6 +320,18 @@ impl MultiState {
             Some(drawable) => drawable,
             None => return Ok(()),
         };
+
+        // Track the total number of zombie lines on the screen. This must only happen once the
+        // draw is known to take place, since the zombies are reaped only after drawing.
+        self.zombie_lines_count += adjust;
+
+        // If this draw is due to a `println`, then we need to erase all the zombie lines.
+        // This is because `println` is supposed to appear above all other elements in the
+        // `MultiProgress`.
+        if extra_lines.is_some() {
+            drawable.adjust_last_line_count(LineAdjust::Clear(self.zombie_lines_count));
+            self.zombie_lines_count = VisualLines::default();
+        }
 
         let mut draw_state = drawable.state();
         draw_state.alignment = self.alignment;
